@@ -57,6 +57,11 @@ func (_ dimensionSetter) UpdateProperties(po tabular.PropertyOwner) error {
 		}
 	}
 
+	if _, declared := cell.Item().(tabular.TerminalCellWidther); declared && len(lines) == 1 {
+		// a single-line item which declares its own width is laid out as that wide
+		linesWidths[0].W = dims.cellWidth
+	}
+
 	po.SetProperty(propDimensions, dims)
 	po.SetProperty(propLinesWidths, linesWidths)
 	return nil
